@@ -2,10 +2,10 @@ SPECIFICATION Spec
 CONSTANTS
   MaxOverloads = 2
   MaxParams = 2
-  ParamCats <- Cats8
-  IntVals <- EdgeIntVals
+  ParamCats <- CatsCo2
+  IntVals <- TinyIntVals
   IntVals2 <- TinyIntVals
-  ArgKinds <- PairArgKinds
+  ArgKinds <- CoArgKinds
   Kinds = {"static"}
   NameModes <- AltNames
   ConstMethods = FALSE
